@@ -37,6 +37,8 @@ def truth(problem, d):
         ramp = ((0.6 + 1e-3) ** 2 - (1e-3) ** 2) / 2
         m0 = ((0.6 + 1e-3) ** 3 / 3 - (1e-3) ** 3 / 3) / ramp + 0.4 - 1e-3
         return math.log(ramp) + (d - 1) * math.log(g1(0.5, 0.1)), [m0] + [0.5] * (d - 1)
+    if problem == 'gaussflat':
+        return math.log(g1(0.5, 0.05)), [0.5] * d
     if problem == 'periodic':
         s = 0.05
         return math.log(2 * s * math.sqrt(2 * math.pi) * (phi(0.5 / s) - 0.5)) + (d - 1) * math.log(g1(0.5, 0.1)), [None] + [0.5] * (d - 1)
@@ -68,10 +70,10 @@ def main(run: Run, audit):
     K = 32 if run.tier == 'quick' else 96
     base = run.seed % 100000 * 1000
     if run.tier == 'quick':
-        problems = [('gauss', 2, dict(n_shell=200)), ('halfspace', 2, dict()), ('gauss', 2, dict(discard=False, n_shell=100))]
+        problems = [('gauss', 2, dict(n_shell=200)), ('halfspace', 2, dict()), ('gauss', 2, dict(discard=False, n_shell=100)), ('gaussflat', 2, dict(n_live=100))]
     else:
         problems = [('gauss', 2, dict(n_shell=200)), ('gauss', 4, dict(n_live=500)), ('twomode', 2, dict(n_live=600, n_shell=100)), ('halfspace', 3, dict()), ('periodic', 2, dict()),
-                    ('gauss', 2, dict(discard=False, n_shell=100)), ('gauss', 2, dict(n_networks=1, n_live=300)), ('gauss', 3, dict(pool_s=3))]
+                    ('gauss', 2, dict(discard=False, n_shell=100)), ('gauss', 2, dict(n_networks=1, n_live=300)), ('gauss', 3, dict(pool_s=3)), ('gaussflat', 2, dict(n_live=100)), ('gaussflat', 3, dict(n_live=200))]
     jobs = [(p, d, base + 100 * pi + k, o) for pi, (p, d, o) in enumerate(problems) for k in range(K)]
     with Pool(16) as pool:
         res = pool.map(one_run, jobs, chunksize=2)
